@@ -55,6 +55,34 @@ partial def loop (h : IO.FS.Stream) (out : IO.FS.Stream) (m : Profile) : IO Unit
         out.putStrLn s!"PIXELS {id} {Obs.hex (Gen.rgbaBytes back)} {Obs.hex (Gen.rgbaBytes src)}"
       out.flush
       loop h out m
+  | ["REFCHECK", mode, seed, count] =>
+      -- run the Rust model and the Aseprite reference spec on the same random pixels
+      let n := count.toNat!
+      let (back, src) := Gen.run seed.toNat! (Gen.blendPixelsG n)
+      let ops := Gen.run (seed.toNat! + 7) ((List.range n).mapM (fun _ => Gen.edgeByte))
+      let mut bad := 0
+      let mut firstBad := ""
+      for ((b, s), o) in (back.zip src).zip ops do
+        let r1 := Blend.blend floatOps Profile.release mode.toNat! b s o
+        let r2 := Spec.BlendRef.blend floatOps mode.toNat! b s o
+        let same := match r1 with | .ok x => x == r2 | _ => false
+        if !same then
+          bad := bad + 1
+          if firstBad == "" then
+            firstBad := s!"{Obs.rgbaHex b} {Obs.rgbaHex s} {o.toNat} ref={Obs.rgbaHex r2}"
+      out.putStrLn s!"REFCHECK {mode} {seed} n={n} mismatches={bad} {firstBad}"
+      out.flush
+      loop h out m
+  | ["REFPIX", mode, seed, count] =>
+      -- print (backdrop, source, opacity, reference result) for the C++ oracle
+      let n := count.toNat!
+      let (back, src) := Gen.run seed.toNat! (Gen.blendPixelsG n)
+      let ops := Gen.run (seed.toNat! + 7) ((List.range n).mapM (fun _ => Gen.edgeByte))
+      for ((b, s), o) in (back.zip src).zip ops do
+        let r2 := Spec.BlendRef.blend floatOps mode.toNat! b s o
+        out.putStrLn s!"REFPIX {mode} {Obs.rgbaHex b} {Obs.rgbaHex s} {o.toNat} {Obs.rgbaHex r2}"
+      out.flush
+      loop h out m
   | [cmd, id, hx] =>
       if cmd == "LOAD" || cmd == "LOADV" then
         match Obs.unhex hx with
